@@ -65,6 +65,13 @@ CLAIMS["C13"] = (
     "DESIGN.md §2 C13",
 )
 
+CLAIMS["C06"] = (
+    "polarity abstract interpretation (LLR sign, nearest-point reductions and argmin sites), homogeneity-degree interpretation (LLR scale), branch read-set agreement, special-case lint",
+    "For every registered demodulator: the soft output is decreasing in the distance to the bit-0 subset and increasing in the distance to the bit-1 subset with nearest-point reductions (closed forms: matching the modulator's amplitude map); it has homogeneity degree -1 in the noise variance (scalar or per-symbol) and degree 2 in distance where derivable; every hard-branch argmin/argmax site is the argmin of a monotone distance to the whole constellation (or the matching sign decision); hard and soft branches read the same constellation and label table; no device/value-keyed perturbation of the metric. These conditions are necessary for 'nearest point' and 'correctly signed, 1/noise_var-scaled LLR' on every input; the numerical max-log value and ties are not decided.",
+    "Trusted: polarity.py / degree.py transfer functions; idioms: circular phase distance abs((a-b+pi)%2pi-pi), literal regularisers <= 1e-6.",
+    "DESIGN.md §2 C06",
+)
+
 NOT_APPLICABLE = {
     "C09": "conjunction at run time of C02/C05/C06/C10/C11/C15 over component pairings and adversarial channels; its structural preconditions (stage order, LLR polarity, label agreement, block framing) are decided under C17, C15, C05, C20 - no additional clause is visible in the shape of the code (DESIGN.md §2 C09)",
 }
